@@ -371,3 +371,175 @@ Proof.
   exists row. split; [reflexivity|]. destruct (get_item row c); [|discriminate].
   cbn in H. inversion H. reflexivity.
 Qed.
+
+(* ---------------------------------------------------------------- two-dimensional slices *)
+Lemma map_opt_get_item_pick {A} (row : list A) idxs :
+  (forall i, In i idxs -> (0 <= i < Z.of_nat (length row))%Z) ->
+  map_opt (get_item row) idxs = Some (flat_map (pick row) idxs).
+Proof.
+  induction idxs as [|i idxs IH]; intros H; cbn [map_opt flat_map]; [reflexivity|].
+  assert (Hi : (0 <= i < Z.of_nat (length row))%Z) by (apply H; left; reflexivity).
+  rewrite (get_item_in_range _ _ Hi). unfold pick at 1.
+  destruct (Z.ltb_spec i 0); [lia|].
+  destruct (nth_error row (Z.to_nat i)) as [x|] eqn:E.
+  - rewrite IH by (intros j Hj; apply H; right; exact Hj). reflexivity.
+  - apply nth_error_None in E. lia.
+Qed.
+
+Lemma sl_list_via_get_item {A} (row : list A) sl :
+  map_opt (get_item row) (sl_indices (length row) sl) = Some (sl_list row sl).
+Proof.
+  destruct sl as [[st e] k]. unfold sl_indices, sl_list, slice_list.
+  apply map_opt_get_item_pick. intros i Hi. apply slice_indices_in_range in Hi. exact Hi.
+Qed.
+
+Lemma map_opt_rows_pick {A B} (rows : list A) (K : Z -> option B) (G : A -> option B) idxs :
+  (forall i, In i idxs -> (0 <= i < Z.of_nat (length rows))%Z) ->
+  (forall i row, In i idxs -> get_item rows i = Some row -> K i = G row) ->
+  map_opt K idxs = map_opt G (flat_map (pick rows) idxs).
+Proof.
+  induction idxs as [|i idxs IH]; intros H HK; cbn [map_opt flat_map]; [reflexivity|].
+  assert (Hi : (0 <= i < Z.of_nat (length rows))%Z) by (apply H; left; reflexivity).
+  pose proof (get_item_in_range _ _ Hi) as Eg. unfold pick.
+  destruct (Z.ltb_spec i 0); [lia|].
+  destruct (nth_error rows (Z.to_nat i)) as [x|] eqn:E.
+  - cbn [app map_opt]. rewrite (HK i x) by (try (left; reflexivity); exact Eg).
+    rewrite IH; [reflexivity| |].
+    + intros j Hj. apply H. right. exact Hj.
+    + intros j row Hj. apply HK. right. exact Hj.
+  - apply nth_error_None in E. lia.
+Qed.
+
+(* lengths[r] and row r of the row view: same validity, and the row has that length *)
+Lemma get_item_rows_lens {A} (s : conc A) r :
+  wf s ->
+  match get_item (lens s) r with
+  | None => get_item (rows_c s) r = None
+  | Some l => exists row, get_item (rows_c s) r = Some row /\ length row = l
+  end.
+Proof.
+  intros Hwf. unfold get_item, rows_c. rewrite partition_length.
+  destruct (norm_index (length (lens s)) r) as [j|] eqn:E; [|reflexivity].
+  destruct (nth_error (lens s) j) as [l|] eqn:El.
+  - rewrite (partition_row (data s) _ _ _ El). eexists. split; [reflexivity|].
+    pose proof (window_bound _ _ _ El) as Hb. rewrite Hwf in Hb.
+    rewrite firstn_length, skipn_length. lia.
+  - apply nth_error_None. rewrite partition_length. apply nth_error_None. exact El.
+Qed.
+
+Lemma rebuild_groups {A} (s : conc A) (groups : list (list (Z * Z))) :
+  wf s ->
+  rebuild (gather s (concat groups)) (map (@length (Z * Z)) groups) =
+  val_result (map_opt (map_opt (fun p => elem_s (rows_c s) (fst p) (snd p))) groups).
+Proof.
+  intros Hwf. rewrite (gather_spec _ _ Hwf), map_opt_concat.
+  destruct (map_opt (map_opt (fun p => elem_s (rows_c s) (fst p) (snd p))) groups) as [xss|] eqn:E0.
+  - unfold rebuild, ctor_flat. rewrite <- (map_opt_lengths _ _ _ E0), sum_lengths_concat, Nat.eqb_refl.
+    unfold rows_c. cbn [data lens]. rewrite partition_concat. reflexivity.
+  - reflexivity.
+Qed.
+
+(* one selected row: the (row, col) pairs produced for it fetch exactly row[sl] *)
+Lemma group_slice {A} (s : conc A) r csl :
+  wf s ->
+  match get_item (lens s) r with
+  | None => None
+  | Some l => map_opt (fun p => elem_s (rows_c s) (fst p) (snd p)) (map (fun c => (r, c)) (sl_indices l csl))
+  end =
+  match get_item (rows_c s) r with
+  | None => None
+  | Some row => Some (sl_list row csl)
+  end.
+Proof.
+  intros Hwf. pose proof (get_item_rows_lens s r Hwf) as H.
+  destruct (get_item (lens s) r) as [l|].
+  - destruct H as [row [Er El]]. rewrite Er, map_opt_map. cbn [fst snd]. unfold elem_s. rewrite Er.
+    rewrite <- El. apply sl_list_via_get_item.
+  - rewrite H. reflexivity.
+Qed.
+
+Lemma slices_core {A} (s : conc A) rs csl :
+  wf s ->
+  match iis_from_slices (lens s) rs csl with
+  | None => Err
+  | Some (iis, nl) => rebuild (gather s iis) nl
+  end =
+  val_result (map_opt (fun r => match get_item (rows_c s) r with
+                                | None => None
+                                | Some row => Some (sl_list row csl)
+                                end) rs).
+Proof.
+  intros Hwf. unfold iis_from_slices.
+  pose proof (map_opt_compose
+    (fun r => match get_item (lens s) r with
+              | None => None
+              | Some l => Some (map (fun c => (r, c)) (sl_indices l csl))
+              end)
+    (map_opt (fun p => elem_s (rows_c s) (fst p) (snd p))) rs) as HC.
+  rewrite (map_opt_ext _ (fun r => match get_item (rows_c s) r with
+                                   | None => None
+                                   | Some row => Some (sl_list row csl)
+                                   end) rs) in HC.
+  - rewrite <- HC. destruct (map_opt _ rs) as [groups|]; [|reflexivity]. apply rebuild_groups. exact Hwf.
+  - intros r _. pose proof (group_slice s r csl Hwf) as G. destruct (get_item (lens s) r); exact G.
+Qed.
+
+Lemma get_sl2ls_refines {A} (s : conc A) rs csl :
+  wf s -> get_c s (Sl2LS rs csl) = get_s (abs s) (Sl2LS rs csl).
+Proof.
+  intros Hwf. cbn [get_c get_s]. destruct (sl_ok csl); [|reflexivity]. apply slices_core. exact Hwf.
+Qed.
+
+Lemma sl_indices_in_range n sl i : In i (sl_indices n sl) -> (0 <= i < Z.of_nat n)%Z.
+Proof. destruct sl as [[st e] k]. apply slice_indices_in_range. Qed.
+
+Lemma sl_list_pick {A} (rows : list A) sl : sl_list rows sl = flat_map (pick rows) (sl_indices (length rows) sl).
+Proof. destruct sl as [[st e] k]. reflexivity. Qed.
+
+Lemma get_sl2ss_refines {A} (s : conc A) rsl csl :
+  wf s -> get_c s (Sl2SS rsl csl) = get_s (abs s) (Sl2SS rsl csl).
+Proof.
+  intros Hwf. cbn [get_c get_s]. destruct (sl_ok rsl && sl_ok csl); [|reflexivity].
+  rewrite (slices_core _ _ _ Hwf). unfold abs. rewrite sl_list_pick.
+  assert (HL : length (rows_c s) = length (lens s)) by apply partition_length. rewrite HL.
+  rewrite (map_opt_rows_pick (rows_c s) _ (fun row => Some (sl_list row csl))).
+  - rewrite map_opt_total. reflexivity.
+  - intros i Hi. rewrite HL. apply (sl_indices_in_range _ _ _ Hi).
+  - intros i row _ E. rewrite E. reflexivity.
+Qed.
+
+(* a[rows, c] and a[rows, [c0, c1, ..]] *)
+Lemma list_prod_groups (rs cs : list Z) :
+  list_prod rs cs = concat (map (fun r => map (fun c => (r, c)) cs) rs) /\
+  repeat (length cs) (length rs) = map (@length (Z * Z)) (map (fun r => map (fun c => (r, c)) cs) rs).
+Proof.
+  induction rs as [|r rs [IH1 IH2]]; cbn [list_prod map concat length repeat]; [split; reflexivity|].
+  rewrite IH1, <- IH2, map_length. split; reflexivity.
+Qed.
+
+Lemma product_core {A} (s : conc A) rsl cs :
+  wf s ->
+  (let '(iis, nl) := iis_from_list (sl_indices (length (lens s)) rsl) cs in rebuild (gather s iis) nl) =
+  val_result (map_opt (fun row => map_opt (get_item row) cs) (sl_list (rows_c s) rsl)).
+Proof.
+  intros Hwf. unfold iis_from_list.
+  destruct (list_prod_groups (sl_indices (length (lens s)) rsl) cs) as [E1 E2]. rewrite E1, E2.
+  rewrite (rebuild_groups _ _ Hwf), map_opt_map. rewrite sl_list_pick.
+  assert (HL : length (rows_c s) = length (lens s)) by apply partition_length. rewrite HL.
+  f_equal. apply map_opt_rows_pick.
+  - intros i Hi. rewrite HL. apply (sl_indices_in_range _ _ _ Hi).
+  - intros i row _ E. rewrite map_opt_map. cbn [fst snd]. unfold elem_s. rewrite E. reflexivity.
+Qed.
+
+Lemma get_sl2sl_refines {A} (s : conc A) rsl cs :
+  wf s -> get_c s (Sl2SL rsl cs) = get_s (abs s) (Sl2SL rsl cs).
+Proof.
+  intros Hwf. cbn [get_c get_s]. destruct (sl_ok rsl); [|reflexivity]. apply product_core. exact Hwf.
+Qed.
+
+Lemma get_sl2si_refines {A} (s : conc A) rsl c :
+  wf s -> get_c s (Sl2SI rsl c) = get_s (abs s) (Sl2SI rsl c).
+Proof.
+  intros Hwf. cbn [get_c get_s]. destruct (sl_ok rsl); [|reflexivity].
+  rewrite (product_core _ _ _ Hwf). reflexivity.
+Qed.
